@@ -31,6 +31,13 @@ def readCanonicalInt (s : Str) : Option Int :=
     else if neg && m == 0 then none                            -- "-0": not canonical
     else some (if neg then -(m : Int) else (m : Int))
 
+/-- `-?digits`, leading zeros allowed: the decimal number it states -/
+def readPaddedInt (s : Str) : Option Int :=
+  let (neg, body) := match s with
+    | 45 :: r => (true, r)
+    | _ => (false, s)
+  (Str.parseNat body).map fun m => if neg then -(m : Int) else (m : Int)
+
 def boolSpellings : List (String × Bool) :=
   [("1", true), ("t", true), ("T", true), ("TRUE", true), ("true", true), ("True", true),
    ("0", false), ("f", false), ("F", false), ("FALSE", false), ("false", false), ("False", false)]
@@ -81,6 +88,13 @@ def holds (k : Kind) (raw : Str) (obs : Res) : Verdict :=
     | some v => if obs == .ok v then .holds else .fails
     | none =>
       if mustReject k s then (match obs with | .err _ => .holds | _ => .fails)
-      else .unspec
+      else
+        -- the remainder is not asserted on, with one exception that needs no reading of the documentation: a text
+        -- made of decimal digits only (zero-padded: `010`, `-017`) states a number; whether such a cell is accepted
+        -- is left open, but if it is, the stored value must be that number (not, say, its octal reading)
+        match k, readPaddedInt s, obs with
+        | .bool, _, _ => .unspec
+        | _, some n, .ok v => if v == n then .holds else .fails
+        | _, _, _ => .unspec
 
 end TableauVerif.Spec.C03
